@@ -22,9 +22,9 @@ Fixpoint lenN {A} (l : list A) : N := match l with [] => 0 | _ :: r => 1 + lenN 
 
 (** * UUIDs, attributes *)
 
-(** [U128int] : a 128-bit UUID built from a Python int, whose text form is 32 hex
-    digits without dashes (not accepted back by [UUID(str)]). *)
-Inductive ukind := U16 | U128 | U128int.
+(** A UUID is its kind and value; its text form (4 hex digits, or 8-4-4-4-12 for every
+    128-bit constructor form, a 128-bit int included) is read back by [UUID(str)]. *)
+Inductive ukind := U16 | U128.
 Record uuid := mkU { u_kind : ukind; u_val : N }.
 Definition is16 (u : uuid) : bool := match u_kind u with U16 => true | _ => false end.
 (** [UUID.__eq__] compares the packed bytes. *)
@@ -478,9 +478,6 @@ Definition export (p : profile) : list jsvc :=
                                    | Some s => [export_svc s] | None => [] end
                      | _ => [] end) (p_db p).
 
-(** [UUID(text)]: the 32-hex-digit form raises TypeError. *)
-Definition importable (u : uuid) : bool := match u_kind u with U128int => false | _ => true end.
-
 (** [Descriptor.from_uuid] *)
 Definition desc_kind_of_uuid (u : uuid) : dkind :=
   if is16 u && (u_val u =? 0x2902) then DKcccd
@@ -497,9 +494,6 @@ Definition import_chr (jc : jchar) : chr :=
   mkC 0 (jc_handle jc) vh (fold_left (fun e d => N.max (d_handle d) e) ds vh) (jc_uuid jc)
       (jc_props jc) (int_to_acc (jc_sec jc)) (jc_data jc) ds.
 
-Definition jchar_importable (jc : jchar) : bool :=
-  importable (jc_uuid jc) && forallb (fun jd => importable (jd_uuid jd)) (jc_descs jc).
-
 (** The model of the import is defined for JSON whose handles are all non-zero (a zero
     handle would switch the constructors to template mode); other inputs: [OutOfModel]. *)
 Definition jchar_in_domain (jc : jchar) : bool :=
@@ -511,16 +505,12 @@ Definition import_step (acc : outcome) (js : jsvc) : outcome :=
   match acc with
   | Raised e => Raised e
   | Done p =>
-      if negb (importable (js_type js)) then Raised TypeError
+      let prim := uuid_eqb (js_type js) (u16 0x2800) in
+      let sec := uuid_eqb (js_type js) (u16 0x2801) in
+      if negb (prim || sec) then Done p
       else
-        let prim := uuid_eqb (js_type js) (u16 0x2800) in
-        let sec := uuid_eqb (js_type js) (u16 0x2801) in
-        if negb (prim || sec) then Done p
-        else if negb (importable (js_uuid js)) then Raised TypeError
-        else if negb (forallb jchar_importable (js_chars js)) then Raised TypeError
-        else
-          let s0 := mkS 0 prim (js_uuid js) (js_start js) (js_end js) [] [] in
-          Done (add_service p (fold_left svc_add_char (map import_chr (js_chars js)) s0))
+        let s0 := mkS 0 prim (js_uuid js) (js_start js) (js_end js) [] [] in
+        Done (add_service p (fold_left svc_add_char (map import_chr (js_chars js)) s0))
   end.
 
 Definition import (js : list jsvc) : outcome :=
@@ -530,7 +520,7 @@ Definition import (js : list jsvc) : outcome :=
 (** * Boolean equalities and correspondence entry points (evaluated by the harness) *)
 
 Definition ukind_eqb (a b : ukind) : bool :=
-  match a, b with U16, U16 | U128, U128 | U128int, U128int => true | _, _ => false end.
+  match a, b with U16, U16 | U128, U128 => true | _, _ => false end.
 Definition uuid_same (a b : uuid) : bool := ukind_eqb (u_kind a) (u_kind b) && (u_val a =? u_val b).
 Definition dkind_eqb (a b : dkind) : bool :=
   match a, b with DKcccd, DKcccd | DKreport, DKreport | DKuser, DKuser | DKgeneric, DKgeneric => true
@@ -743,9 +733,3 @@ Definition layout (gaps : bool) (p : profile) : Prop :=
 
 Definition is_remove (o : op) : bool := match o with OpRemove _ => true | _ => false end.
 Definition no_remove (ops : list op) : bool := forallb (fun o => negb (is_remove o)) ops.
-
-(** every UUID of the profile can be read back from its text form *)
-Definition chr_importable (c : chr) : bool :=
-  importable (c_uuid c) && forallb (fun d => importable (d_uuid d)) (c_descs c).
-Definition svc_importable (s : svc) : bool := importable (s_uuid s) && forallb chr_importable (s_chars s).
-Definition profile_importable (p : profile) : bool := forallb svc_importable (p_svcs p).
